@@ -299,6 +299,32 @@ fn c08_array_conversions_y() {
     core::mem::forget((from_slice, from_vec));
 }
 
+/// One-element cell of the slice conversion, written without `==` on signatures or arrays (their recursive
+/// `PartialEq` is what made `c08_array_conversions_*` time out): an array built from `&[Value]` has element
+/// signature `v` and every element is a `Value::Value` wrapping the original; built from `&[u8]` it has element
+/// signature `y` and bare `Value::U8` elements.
+#[kani::proof]
+#[kani::unwind(4)]
+#[kani::stub(alloc::fmt::format, no_format)]
+fn c08_array_from_slice_cell() {
+    let x: u8 = kani::any();
+    let vals = [Value::U8(x)];
+    let av = zvariant::Array::from(&vals[..]);
+    assert!(av.len() == 1);
+    assert!(matches!(av.element_signature(), zvariant::Signature::Variant), "array of values does not have element signature v");
+    match &av.inner()[0] {
+        Value::Value(b) => assert!(matches!(**b, Value::U8(y) if y == x), "wrapped element differs from the original"),
+        _ => panic!("element of an array with element signature v is not a variant"),
+    }
+    let raw = [x];
+    let ay = zvariant::Array::from(&raw[..]);
+    assert!(ay.len() == 1);
+    assert!(matches!(ay.element_signature(), zvariant::Signature::U8), "array of bytes does not have element signature y");
+    assert!(matches!(ay.inner()[0], Value::U8(y) if y == x), "byte element is not a bare U8 of the same value");
+    kani::cover!(x == 0x7f, "reached the end with a chosen payload");
+    core::mem::forget((av, ay, vals));
+}
+
 #[kani::proof]
 #[kani::unwind(6)]
 #[kani::stub(alloc::fmt::format, no_format)]
